@@ -349,29 +349,45 @@ def drain_copies(F, S):
     if ext is None:
         raise AnalysisBroken("HuffLZ::m_DecompressBuffer not found")
     n = 0
-    for nd in fn.nodes:
-        if nd["k"] not in CALLS or nd.get("fname") != "memcpy":
+    # the copies are in CopyAvailableData or in helpers it calls on the same object; a helper's copy is judged once per
+    # calling context (what is known at each call, carried into the helper, must give both bounds)
+    from ..through import find_calls
+    sites = find_calls(F, fn, lambda x: x.get("fname") == "memcpy" and len(x.get("args", [])) == 3, depth=2)
+    done = set()
+    for st in sorted(sites, key=lambda s0: (s0.owner.key != fn.key, s0.node["id"])):
+        hf, nd = st.owner, st.node
+        if (hf.key, nd["id"]) in done:
             continue
-        n += 1
-        site = final_site_facts(eng, fn, nd["id"]) or set()
-        a = [fn.term(x) for x in nd["args"]]
+        done.add((hf.key, nd["id"]))
+        obs = eng.site.get((hf.key, nd["id"])) or []
+        if not obs:
+            raise AnalysisBroken("%s: the copy at %s is not reached from CopyAvailableData" % (fn.qn, hf.loc(nd["id"])))
+        a = [hf.term(x) for x in nd["args"]]
         cnt = a[2]
-        inst = "%s#memcpy%d" % (fn.qn, n)
         src_ok = a[1] == ("un", "&", ("idx", ("mem", ("this",), "m_DecompressBuffer"), rd))
-        room = prove_le(site, cnt, size)
-        held = prove_le(site, cnt, ("op", "-", ("const", ext), rd)) or prove_le(site, cnt, ("op", "-", wr, rd))
-        req = "memcpy out of the window: count <= caller's remaining room, and <= %d - read index or <= write index - read index" % ext
-        if src_ok and room and held:
-            out.append(ok("R-COPYEXT", inst, fn.loc(nd["id"]), fn.qn, req, "both bounds hold at the copy"))
-        else:
-            why = []
-            if not src_ok:
-                why.append("source is %s" % fmt_term(a[1]))
-            if not room:
-                why.append("%s <= %s not established" % (fmt_term(cnt), fmt_term(size)))
-            if not held:
-                why.append("%s not bounded by what the window holds" % fmt_term(cnt))
-            out.append(bad("R-COPYEXT", inst, fn.loc(nd["id"]), fn.qn, req, "; ".join(why) + "; facts at site: " + facts_txt(site)))
+        # one obligation per calling context when the copy is in a helper called from several places
+        ctxs = [set(o) for o in obs] if hf.key != fn.key else [final_site_facts(eng, hf, nd["id"]) or set()]
+        seen_ctx = []
+        for site in ctxs:
+            if site in seen_ctx:
+                continue
+            seen_ctx.append(site)
+            n += 1
+            inst = "%s#memcpy%d" % (fn.qn, n)
+            room = prove_le(site, cnt, size)
+            held = prove_le(site, cnt, ("op", "-", ("const", ext), rd)) or prove_le(site, cnt, ("op", "-", wr, rd))
+            req = "memcpy out of the window: count <= caller's remaining room, and <= %d - read index or <= write index - read index" % ext
+            if src_ok and room and held:
+                out.append(ok("R-COPYEXT", inst, hf.loc(nd["id"]), hf.qn, req, "both bounds hold at the copy"))
+            else:
+                why = []
+                if not src_ok:
+                    why.append("source is %s" % fmt_term(a[1]))
+                if not room:
+                    why.append("%s <= %s not established" % (fmt_term(cnt), fmt_term(size)))
+                if not held:
+                    why.append("%s not bounded by what the window holds" % fmt_term(cnt))
+                out.append(bad("R-COPYEXT", inst, hf.loc(nd["id"]), hf.qn, req, "; ".join(why) + "; facts at site: " + facts_txt(site)))
     # the terms above are read through conversions; a conversion that can change the value (size_t -> int ...) must be guarded
     from ..rules_narrow import r_narrow
     o2, _ = r_narrow(F, S, fn, explicit_only=False)
